@@ -71,6 +71,7 @@ Clauses ==
    Rejected_NoEffect |-> Rejected_NoEffect(pre, ev, st),
    X14_Recipient |-> X14_Recipient(pre, ev, st),
    X14_Collection |-> X14_Collection(st),
+   X14_Fidelity |-> X14_Fidelity(pre, ev, st),
    X14_CrisisInvariant |-> Crisis_Invariant]
 
 Failing == IF ev.name = "Init" THEN {} ELSE {c \in DOMAIN Clauses : ~Clauses[c]}
